@@ -13,7 +13,8 @@ Definition part := list str.                 (* one comma-separated selector: it
 Definition is_comb_tok (n : str) : bool :=   (* `n in '>+~'` for one-character tokens *)
   match n with [c] => Ascii.eqb c ">" || Ascii.eqb c "+" || Ascii.eqb c "~" | _ => false end.
 Definition is_subp (t : str) : bool := mem_str t subp_names.
-Definition has_qmark (t : str) : bool := existsb (fun c => Ascii.eqb c "?") t.
+Definition has_qmark (t : str) : bool :=        (* the '?c?' form combinators are kept in: len(j) == 3 and j[0] == j[2] == '?' *)
+  match t with [a; _; b] => Ascii.eqb a "?" && Ascii.eqb b "?" | _ => false end.
 Definition blank_tok : str := [" "].
 Definition is_blank_tok (t : str) : bool := str_eqb t blank_tok.
 
@@ -131,15 +132,29 @@ Fixpoint replace_all (pat rep x : str) (fuel : nat) : str :=
 Definition str_replace (pat rep x : str) : str := replace_all pat rep x (S (length x)).
 
 (* re.sub('\?(.)\?', ws + '\1' + ws, name) *)
+(* re.sub(r'(\[[^\]]*\])|\?(.)\?', keep group 1 or ws + group 2 + ws): a bracketed part is copied, '?c?' becomes ws c ws *)
 Fixpoint sub_comb_fuel (fuel : nat) (ws : str) (x : str) : str :=
   match fuel with
   | O => x
   | S f =>
       match x with
-      | "?" :: c :: "?" :: r => if is_nl c then "?" :: sub_comb_fuel f ws (c :: "?" :: r)    (* '.' does not match newline *)
-                                else ws ++ [c] ++ ws ++ sub_comb_fuel f ws r
-      | c :: r => c :: sub_comb_fuel f ws r
       | [] => []
+      | a :: r =>
+          if Ascii.eqb a "[" then
+            let '(inside, rest) := span (fun d => negb (Ascii.eqb d "]")) r in
+            match rest with
+            | d :: rest' => a :: inside ++ d :: sub_comb_fuel f ws rest'      (* d is the closing bracket *)
+            | [] => a :: sub_comb_fuel f ws r
+            end
+          else
+          match r with
+          | c :: b :: r' =>
+              if Ascii.eqb a "?" && Ascii.eqb b "?"
+              then (if is_nl c then a :: sub_comb_fuel f ws r            (* '.' does not match newline *)
+                    else ws ++ [c] ++ ws ++ sub_comb_fuel f ws r')
+              else a :: sub_comb_fuel f ws r
+          | _ => a :: sub_comb_fuel f ws r
+          end
       end
   end.
 Definition sub_comb (ws : str) (x : str) : str := sub_comb_fuel (S (length x)) ws x.
@@ -152,20 +167,24 @@ Fixpoint squeeze_blanks (fuel : nat) (x : str) : str :=
   | O => x
   | S f =>
       match x with
-      | "[" :: r =>
-          let '(inside, rest) := span (fun c => negb (Ascii.eqb c "]")) r in
-          match rest with
-          | "]" :: rest' => "[" :: inside ++ "]" :: squeeze_blanks f rest'
-          | _ => "[" :: squeeze_blanks f r           (* no closing bracket: '[' is an ordinary character *)
-          end
-      | " " :: " " :: r => " " :: squeeze_blanks f r
-      | c :: r => c :: squeeze_blanks f r
       | [] => []
+      | c :: r =>
+          if Ascii.eqb c "[" then
+            let '(inside, rest) := span (fun d => negb (Ascii.eqb d "]")) r in
+            match rest with
+            | d :: rest' => c :: inside ++ d :: squeeze_blanks f rest'     (* d is the closing bracket *)
+            | [] => c :: squeeze_blanks f r                                (* no closing bracket: '[' is an ordinary character *)
+            end
+          else
+            match r with
+            | d :: r' => if Ascii.eqb c " " && Ascii.eqb d " " then c :: squeeze_blanks f r' else c :: squeeze_blanks f r
+            | [] => c :: squeeze_blanks f r
+            end
       end
   end.
 
+(* every comma-separated part: blanks trimmed, the '?c?' combinator marks replaced by ws c ws; the parts joined by a comma and
+   the line break fill; double blanks squeezed in the whole *)
 Definition ident_fmt (ws nl : str) (parsed : list part) : str :=
-  let name := join $",$$" (map (fun p => strip_ws (concat_str p)) parsed) in
-  let name := sub_comb ws name in
-  let name := str_replace $"$$" nl name in
+  let name := join ("," :: nl) (map (fun p => sub_comb ws (strip_ws (concat_str p))) parsed) in
   squeeze_blanks (S (length name)) name.
